@@ -9,6 +9,14 @@ UNWRAPS = {"std::option::Option::<T>::unwrap", "std::option::Option::<T>::expect
            "std::result::Result::<T, E>::expect", "std::result::Result::<T, E>::unwrap_err", "std::result::Result::<T, E>::expect_err"}
 INDEX_TRAITS = ("std::ops::Index::index", "std::ops::IndexMut::index_mut")
 IGNORED_ASSERTS = ("misaligned", "null_deref")
+# library calls documented to panic on an argument out of range (an index past the end, two
+# slices of different length): each is an obligation like an indexing expression
+LIB_PANICS = {"std::vec::Vec::<T, A>::remove": "remove", "std::vec::Vec::<T, A>::insert": "insert",
+              "std::vec::Vec::<T, A>::swap_remove": "swap_remove", "std::vec::Vec::<T, A>::split_off": "split_off",
+              "std::slice::<impl [T]>::copy_from_slice": "copy_from_slice", "std::slice::<impl [T]>::clone_from_slice": "clone_from_slice",
+              "std::slice::<impl [T]>::split_at": "split_at", "std::slice::<impl [T]>::split_at_mut": "split_at_mut",
+              "std::slice::<impl [T]>::swap": "swap", "core::str::<impl str>::split_at": "split_at",
+              "std::collections::VecDeque::<T, A>::remove": "remove"}
 
 
 def sites_in(f):
@@ -34,6 +42,9 @@ def sites_in(f):
                 out.append(("unwrap:" + c.name, b["i"], t))
             elif p in INDEX_TRAITS:
                 out.append(("index", b["i"], t))
+            elif p in LIB_PANICS or p.replace("core::", "std::", 1) in LIB_PANICS or p.replace("alloc::", "std::", 1) in LIB_PANICS:
+                nm = LIB_PANICS.get(p) or LIB_PANICS.get(p.replace("core::", "std::", 1)) or LIB_PANICS[p.replace("alloc::", "std::", 1)]
+                out.append(("libcall:" + nm, b["i"], t))
     return out
 
 
@@ -73,7 +84,7 @@ def key_of(f, kind, bb):
     c = f.call_at[bb]
     if kind == "panic":
         return "%s|panic|%s" % (f.id, _panic_context(f, bb))
-    if kind.startswith("unwrap"):
+    if kind.startswith("unwrap") or kind.startswith("libcall"):
         return "%s|%s|%s" % (f.id, kind, _names_of(f, c.args[0]))
     if kind == "index":
         full = c.callee.get("full", c.path)
@@ -507,7 +518,26 @@ def support_thread_error_kinds(P, f, kind, bb):
     return True
 
 
+def support_position_of_same_vector(P, f, kind, bb):
+    """the index is the Some payload of `v.iter().position(..)` on the very vector the call is
+    made on, and the call sits under that Some edge"""
+    c = f.call_at[bb]
+    io = f.origins_of_operand(c.args[1])
+    if not io:
+        return False
+    vec = {tuple(st for st in o if st[0] not in ("iter", "adapt")) for o in f.origins_of_operand(c.args[0])}
+    for o in io:
+        if not (o[0][0] == "call" and o[0][3].endswith("::position") and o[1:] == (("variant", "Some"), ("field", 0))):
+            return False
+        pc = f.call_at[o[0][2]]
+        src = {tuple(st for st in x if st[0] not in ("iter", "adapt")) for x in f.origins_of_operand(pc.args[0])}
+        if src != vec or not f.dominated_by_edges(bb, f.edges_of_call_variant(pc, "Some")):
+            return False
+    return True
+
+
 SUPPORTS = {
+    "position-of-same-vector": support_position_of_same_vector,
     "range-over-len": support_range_over_len,
     "len-equality-guard": support_len_equality_guard,
     "windows-2": support_windows_2,
@@ -599,6 +629,8 @@ def judge(P, roots, here):
                 rk = parts[1]
             elif parts[1] == "panic":
                 rk = "panic"
+            elif parts[1].startswith("libcall"):
+                rk = parts[1]
             if rk:
                 free[rk] = free.get(rk, 0) + n
     matched_at = {}
